@@ -18,7 +18,9 @@ from refmodel import tokenise as T
 ID = 'C05'
 LEVEL = 'exploration'
 RULE = ('Documents of every selectable non-acknowledgement map (round-robin), 1..2 interchanges x 1..2 groups x 1..3 sets, with '
-        '0..5 injected data faults spread over sets plus optional trailer count/control-number faults (nesting intact), validated '
+        '0..5 injected data faults spread over sets (sometimes a missing required segment meeting an element fault) plus optional '
+        'trailer count/control-number faults, element and reader-level errors on envelope segments, and structural damage (stray '
+        'segment between envelope segments, SE/GE/ST that never comes, a set of a foreign type, several senders), validated '
         'behind the seams with the acknowledgement sink on. One evaluation = one validation. distinct_nontrivial = distinct '
         '(map file, envelope shape, sorted multiset of reported (level, code)) keys.')
 ASSUMPTIONS = [
